@@ -166,9 +166,20 @@ pub fn gen_c16(run: &mut crate::Run, seed: u64, thorough: bool) {
             let app = if g.rng.chance(1, 2) { example.clone() } else { mini.clone() };
             let aname = if app == example { "example" } else { "mini" };
             let payload = g.rng.bytes(g.rng.0 as usize % 24);
-            let chain = format!("chain{}", g.rng.below(2)).into_bytes();
-            let id = format!("id-{h}-{step}").into_bytes();
-            let src = b"0xsender".to_vec();
+            // chain names, ids and sender strings of every length class (short; 20 / 21; 32 / 33; long)
+            let lens = [20usize, 21, 32, 33, 70, 300];
+            let chain = match g.rng.below(6) {
+                0 | 1 | 2 => format!("chain{}", g.rng.below(2)).into_bytes(),
+                _ => vec![b'c'; *g.rng.pick(&lens)],
+            };
+            let mut id = format!("id-{h}-{step}").into_bytes();
+            if g.rng.chance(1, 6) {
+                id.resize(*g.rng.pick(&lens), b'i');
+            }
+            let mut src = b"0xsender".to_vec();
+            if g.rng.chance(1, 6) {
+                src.resize(*g.rng.pick(&lens), b's');
+            }
             let m = Msg { chain: chain.clone(), id: id.clone(), src: src.clone(), contract: app.clone(), ph: keccak(&payload) };
             // deviation class
             let dev = g.rng.below(11);
